@@ -1,6 +1,6 @@
 (* Model of Field.diff (field.py) and operators.py: 1-d stencils on a run of valid cells,
    split/differentiate/recombine, periodic wrap + crop, lift to n-d.  Generic field K. *)
-From DF Require Import Prelude FieldK NDArray.
+From DF Require Import Prelude Constants_gen FieldK NDArray.
 
 Section Diff.
 Variable K : FOps.
@@ -27,20 +27,22 @@ Definition d1_at (a : list K) (h : K) (j : nat) : K :=
   else
     (nth0 (j + 1)%nat a - nth0 (j - 1)%nat a) / (two * h).
 
-(* --- second derivative on one run --- *)
+(* --- second derivative on one run; the coefficient tuples are read from operators.py
+   (Constants_gen: d2_interior = [1;-2;1], d2_first4 = [2;-5;4;-1], d2_first3 = [1;-2;1], mirrored at the end) --- *)
 Definition d2_at (a : list K) (h : K) (j : nat) : K :=
   let L := length a in
   let hh := h * h in
   if (L <? 4)%nat then
-    (* three cells: the one 3-point stencil everywhere *)
-    (nth0 0%nat a - two * nth0 1%nat a + nth0 2%nat a) / hh
+    if (j =? 0)%nat then lincomb K d2_first3 [nth0 0%nat a; nth0 1%nat a; nth0 2%nat a] / hh
+    else if (j =? L - 1)%nat then
+      lincomb K d2_last3 [nth0 (L - 1)%nat a; nth0 (L - 2)%nat a; nth0 (L - 3)%nat a] / hh
+    else lincomb K d2_interior [nth0 (j - 1)%nat a; nth0 j a; nth0 (j + 1)%nat a] / hh
   else if (j =? 0)%nat then
-    (two * nth0 0%nat a - five * nth0 1%nat a + four * nth0 2%nat a - nth0 3%nat a) / hh
+    lincomb K d2_first4 [nth0 0%nat a; nth0 1%nat a; nth0 2%nat a; nth0 3%nat a] / hh
   else if (j =? L - 1)%nat then
-    (two * nth0 (L - 1)%nat a - five * nth0 (L - 2)%nat a + four * nth0 (L - 3)%nat a
-     - nth0 (L - 4)%nat a) / hh
+    lincomb K d2_last4 [nth0 (L - 1)%nat a; nth0 (L - 2)%nat a; nth0 (L - 3)%nat a; nth0 (L - 4)%nat a] / hh
   else
-    (nth0 (j - 1)%nat a - two * nth0 j a + nth0 (j + 1)%nat a) / hh.
+    lincomb K d2_interior [nth0 (j - 1)%nat a; nth0 j a; nth0 (j + 1)%nat a] / hh.
 
 (* _1d_diff: zero for runs not longer than the order *)
 Definition d_run (order : nat) (a : list K) (h : K) : list K :=
